@@ -675,7 +675,25 @@ func (x *fx) applyContract(c2 *Contract, f *ssa.Function, sig *types.Signature, 
 	}
 	envPost.old = envPre
 	for _, cl := range c2.Ensures {
-		e := evalIn(cl.E, envPost)
+		// a postcondition that mentions a local of the callee is checked inside the
+		// callee only; it tells the caller nothing (skipped: fewer assumptions)
+		var e string
+		skip := false
+		func() {
+			defer func() {
+				if r := recover(); r != nil {
+					if se, ok := r.(specErr); ok && strings.HasPrefix(string(se), "unbound name ") {
+						skip = true
+						return
+					}
+					panic(r)
+				}
+			}()
+			e = evalIn(cl.E, envPost)
+		}()
+		if skip {
+			continue
+		}
 		if preHolds != "true" {
 			e = "(=> " + preHolds + " " + e + ")"
 		}
